@@ -3,6 +3,7 @@
    Statements are about the hand-written model C15/Model.v of nasType/qos_rule.go and
    nasType/qos_flow_desc.go (tied to the Go code by the correspondence run), the TS
    layouts of C15/Spec.v and the well-formedness predicates at the end of C15/Spec.v. *)
+From NV Require C19.Globals.
 From NV Require Import Lib.Base C15.Model C15.Spec C15.Proofs.
 Open Scope N_scope.
 
@@ -210,6 +211,14 @@ Proof.
   vm_compute. repeat split; try reflexivity; eexists; (split; [reflexivity|]); [reflexivity|discriminate].
 Qed.
 
+(* the functions this property is about are functions of their arguments: the files it is anchored in declare
+   no package-level variable other than the pinned read-only tables (or a never-touched one of plain type) and
+   none of their functions writes, slices, takes the address of, passes on or calls a method of a
+   package-level variable (logger entries excepted) -- evaluated on the current source (C19/Globals.v) *)
+Theorem C15_anchor_files_keep_no_state :
+  Globals.hidden_state_free Globals.anchors_C15 = true.
+Proof. vm_compute. reflexivity. Qed.
+
 Print Assumptions C15_rules_total.
 Print Assumptions C15_descs_total.
 Print Assumptions C15_known_component_ids.
@@ -232,3 +241,4 @@ Print Assumptions C15_rules_marshal_total.
 Print Assumptions C15_descs_marshal_ok.
 Print Assumptions C15_rule_length_is_ignored.
 Print Assumptions C15_ts_ranges_in_domain.
+Print Assumptions C15_anchor_files_keep_no_state.
